@@ -222,12 +222,33 @@ def run_burst(case: dict) -> Outcome:
     assert bad != data
     where = "checksum" if 64 <= start < 96 else ("header" if start < 64 else "body")
     classes = (f"burst-in-{where}", f"len{'1' if length == 1 else ('2-8' if length <= 8 else ('9-31' if length < 32 else '32'))}")
+    # "never reaches chunk processing": no chunk object may be constructed from the corrupted bytes.  The parser
+    # dispatches through the module's CHUNK_TYPES table; every entry is wrapped by a counting stand-in for the call.
+    built = []
+    saved = dict(S.CHUNK_TYPES)
+
+    def counting(cls):
+        def make(*a, **kw):
+            built.append(cls.__name__)
+            return cls(*a, **kw)
+        return make
+
+    for k, cls in saved.items():
+        S.CHUNK_TYPES[k] = counting(cls)
     try:
-        S.parse_packet(bad)
-    except ValueError:
-        return Outcome(None, None, True, classes)
-    except Exception as exc:
-        return Outcome(f"corrupted packet raised {exc!r} instead of ValueError", "burst-other-exc", True, classes)
+        try:
+            S.parse_packet(bad)
+        except ValueError:
+            if built:
+                return Outcome(f"burst of {length} bits at bit {start}: the packet was rejected, but only after chunk processing had "
+                               f"started on the corrupted bytes ({built[:3]} constructed before the checksum was verified)",
+                               "burst-reached-chunks", True, classes)
+            return Outcome(None, None, True, classes)
+        except Exception as exc:
+            return Outcome(f"corrupted packet raised {exc!r} instead of ValueError", "burst-other-exc", True, classes)
+    finally:
+        S.CHUNK_TYPES.clear()
+        S.CHUNK_TYPES.update(saved)
     return Outcome(f"burst of {length} bits at bit {start} was accepted by parse_packet", "burst-accepted", True, classes)
 
 
